@@ -304,3 +304,39 @@ def pmap(fn, arglist, workers=None, chunksize=1):
     finally:
         pool.close()
         pool.join()
+
+
+def run_history(sysm, history):
+    """re-execute a recorded history through the system's step function -> (failing check names, last snap, last model)"""
+    hist = [unjson(e) for e in history]
+    snap, model = sysm.initial()[hist[0][1]]
+    found = []
+    for ev in hist[1:]:
+        found += [v["check"] for v in sysm.state_check(snap, model)]
+        st = sysm.step(snap, model, ev)
+        found += [v["check"] for v in st.viols]
+        if st.snap is None:
+            return found, None, None
+        snap, model = st.snap, st.model
+    found += [v["check"] for v in sysm.state_check(snap, model)]
+    return found, snap, model
+
+
+def replay_doc(make_sys, doc):
+    """generic replay of a BFS violation: twice (determinism), True iff the recorded check fails again"""
+    outcomes = []
+    for _ in range(2):
+        sysm = make_sys()
+        found, snap, model = run_history(sysm, doc["history"])
+        if doc["check"] == "model_merge" and snap is not None:
+            other = (doc.get("detail") or {}).get("other_hist")
+            if other:
+                sys2 = make_sys()
+                _, snap2, model2 = run_history(sys2, other)
+                if snap2 is not None and sysm.canon(snap) == sys2.canon(snap2) and model != model2:
+                    found.append("model_merge")
+        outcomes.append(found)
+    if outcomes[0] != outcomes[1]:
+        raise HarnessError("replay is not deterministic")
+    print("replayed history; failing checks:", sorted(set(outcomes[0])))
+    return doc["check"] in outcomes[0]
